@@ -51,6 +51,11 @@ pub struct QCase {
     #[serde(default)]
     pub poison: bool,
     pub handler: bool,
+    /// the scripted wrapped sink's `flush()` returns an error while its "backend is down" (from an
+    /// `emit` that returned Err until the next one that succeeds) - like a buffered sink whose
+    /// socket refuses. Nobody may report that to the error handler: C16 is about emit failures.
+    #[serde(default)]
+    pub flush_fails: bool,
     pub plan: Vec<SinkOutcome>,
     pub n_gates: usize,
     pub main_ops: Vec<QOp>,
@@ -126,6 +131,8 @@ struct Shared {
     sink_drops: AtomicUsize,
     poison: bool,
     poisoned: std::sync::atomic::AtomicBool,
+    flush_fails: bool,
+    backend_down: std::sync::atomic::AtomicBool,
 }
 
 struct ScriptedSink {
@@ -203,6 +210,7 @@ impl MetricSink for ScriptedSink {
                 _ => {}
             }
         }
+        self.sh.backend_down.store(matches!(outcome, SinkOutcome::Err(_)), O::SeqCst);
         match outcome {
             SinkOutcome::Ok => {
                 kernel::yield_now();
@@ -238,6 +246,7 @@ impl ScriptedSink {
     fn flush_inner(&self) -> io::Result<()> {
         match &self.inner {
             Some(i) => i.flush(),
+            None if self.sh.flush_fails && self.sh.backend_down.load(O::SeqCst) => Err(io::Error::new(io::ErrorKind::Other, "flush refused: backend down")),
             None => Ok(()),
         }
     }
@@ -509,6 +518,8 @@ fn sim_main(case: QCase) -> Obs {
         sink_drops: AtomicUsize::new(0),
         poison: case.poison,
         poisoned: std::sync::atomic::AtomicBool::new(false),
+        flush_fails: case.flush_fails,
+        backend_down: std::sync::atomic::AtomicBool::new(false),
     });
     kernel::set_label("construct");
     let sink = ScriptedSink { sh: sh.clone(), inner };
@@ -870,7 +881,9 @@ impl Engine for E3 {
         let sched = SchedSpec::generate(&mut sch, &weights);
         let flushes = main_ops.iter().chain(producers.iter().flatten()).any(|o| matches!(o, QOp::Flush { .. }));
         let poison = !flushes && wrapped_buffered.is_none() && cfg.chance(1, 3);
-        QCase { sched, cap, via_builder, poison, handler, plan, n_gates, main_ops, producers, sampler, observer, final_drop, wrapped_buffered, sock_full, wide_strings: cfg.chance(1, 8) }
+        let wide_strings = cfg.chance(1, 8);
+        let flush_fails = !poison && wrapped_buffered.is_none() && cfg.chance(1, 3);
+        QCase { sched, cap, via_builder, poison, handler, flush_fails, plan, n_gates, main_ops, producers, sampler, observer, final_drop, wrapped_buffered, sock_full, wide_strings }
     }
 
     fn pin_schedule(case: &QCase, o: &Outcome) -> QCase {
@@ -960,6 +973,11 @@ impl Engine for E3 {
         if case.poison {
             let mut c = case.clone();
             c.poison = false;
+            v.push(c);
+        }
+        if case.flush_fails {
+            let mut c = case.clone();
+            c.flush_fails = false;
             v.push(c);
         }
         if case.via_builder {
